@@ -25,9 +25,12 @@ def one(spec):
     a = sh("git -C /repo worktree add --detach %s HEAD" % wt)
     try:
         a = sh("git -C %s apply %s/patch.diff" % (wt, d))
+        if a.returncode != 0:      # /repo has moved on (fix commits): merge
+            a = sh("git -C %s apply --3way %s/patch.diff" % (wt, d))
+            sh("git -C %s reset -q" % wt)
         if a.returncode != 0:
             return name, "PATCH DOES NOT APPLY", a.stdout[-200:]
-        t = sh("cd %s && PYTHONPATH=%s/src /venv/bin/python -m pytest -q -p no:cacheprovider --color=no tests 2>&1 | tail -1" % (wt, wt))
+        t = sh("cd %s && PYTHONPATH=%s/src /venv/bin/python -m pytest -q -p no:cacheprovider --color=no 2>&1 | tail -1" % (wt, wt))
         res["tests"] = t.stdout.strip()[-80:]
         out = []
         for c in checks:
